@@ -22,3 +22,11 @@ func verifAssert(label string, c bool) {
 // already trusts): needed by (*ImmuStore).DiscardPrecommittedTxsSince, whose warning would otherwise havoc the store.
 //@ iface Logger.Warningf
 //@   assigns internal
+
+// (integrator) same ASSUMED frame for the other levels: logging writes no program state of the caller.
+//@ iface Logger.Infof
+//@   assigns internal
+//@ iface Logger.Errorf
+//@   assigns internal
+//@ iface Logger.Debugf
+//@   assigns internal
